@@ -193,6 +193,61 @@ def main(argv):
                             want.setdefault(expected_server(k), []).append(inner(k))
                         real = {name: ks_here for name, ks_here in per_server.items()}
                         metas.append((dict(case0, keys=repr(keys)[:100]), real, pfx))
+    # ---- merging the answers: set_many reports exactly the keys that were not stored, whichever server they live on; node names are the
+    #      published canonical spellings whatever way the server was written (host without port, unix:, IPv6 brackets)
+    spelled = [["h1", "h2:11212", ("h3", 11213)], ["unix:/tmp/x.sock", "h1:1", "/tmp/y.sock"], ["[::1]:11211", "[fe80::2]", ("10.0.0.9", 11211)],
+               [("n%d" % i, 11211) for i in range(5)], [("solo", 1)]]
+    from pymemcache.client.base import normalize_server_spec
+    for servers in spelled:
+        for pooling in (False, True):
+            for pfx in (b"", b"p:"):
+                for rep in range(8 if ctx.thorough else 3):
+                    S = Scripted(rng)
+                    S.begin_call(0, {})
+                    try:
+                        hc = HashClient(servers, socket_module=S.sm, use_pooling=pooling, default_noreply=False, key_prefix=pfx, retry_attempts=0, dead_timeout=0)
+                    except Exception as e:
+                        ctx.violation("HashClient could not be built from documented server spellings", {"servers": servers, "error": repr(e)[:100]}, tags=["spelling"])
+                        continue
+                    norm = [normalize_server_spec(sp) for sp in servers]
+                    names = [node_name(a) for a in norm]
+                    keys = ["mk%d-%d" % (rep, i) for i in range(rng.choice([3, 12, 40]))]
+                    refused = set(rng.sample(keys, rng.choice([0, 1, len(keys) // 2, len(keys)])))
+
+                    def home(k):
+                        return max(names, key=lambda nn: (murmur3_32(f"{nn}-{k}", 0), nn))
+                    ctx.case(("merge", repr(servers), pooling, pfx, rep), nontrivial=True)
+                    ctx.count("merge-answers")
+                    case0 = {"servers": servers, "pooling": pooling, "prefix": hx(pfx), "keys": len(keys), "refused": len(refused)}
+                    if sorted(map(str, hc.hasher.nodes)) != sorted(names):
+                        ctx.violation("servers are not entered into rotation under their canonical node names", dict(case0, rotation=sorted(map(str, hc.hasher.nodes)), want=sorted(names)),
+                                      tags=["spelling"])
+                        continue
+                    # make every server exist, then switch the refusals on
+                    hc.get_many(keys)
+                    for srv in S.srvs.values():
+                        srv.refuse_keys = {wire(k, pfx) for k in refused}
+                        del srv.cmds[:]
+                    try:
+                        failed = hc.set_many({k: b"v" for k in keys}, noreply=False)
+                    except Exception as e:
+                        ctx.violation("set_many raised on healthy servers", dict(case0, error=repr(e)[:100]), tags=["op:set_many", "merge"])
+                        continue
+                    observed = sorted((name, wk) for name, srv in server_logs(S).items() for cmd in srv.cmds for wk in keys_seen(cmd))
+                    expected = sorted((home(k), wire(k, pfx)) for k in keys)
+                    if observed != expected:
+                        ctx.violation("set_many did not send each key exactly once to the server placement assigns to it (and to no other)",
+                                      dict(case0, observed=[(a_, hx(b_)) for a_, b_ in observed][:8], expected=[(a_, hx(b_)) for a_, b_ in expected][:8]), tags=["op:set_many", "spelling"])
+                        continue
+                    singles = sorted(k for k in keys if hc.set(k, b"v", noreply=False) is not True)
+                    if sorted(failed) != sorted(refused) or singles != sorted(refused):
+                        ctx.violation("set_many does not report exactly the keys that were not stored (= the keys for which a single set reports failure)",
+                                      dict(case0, failed=sorted(map(str, failed))[:10], n_failed=len(failed), want=sorted(refused)[:10], n_want=len(refused), per_key_set_failures=len(singles)),
+                                      tags=["op:set_many", "merge"])
+                        continue
+                    gm = hc.get_many(keys)
+                    if gm != {k: b"v" for k in keys if k not in refused}:
+                        ctx.violation("get_many does not return exactly what was stored", dict(case0, got=len(gm)), tags=["op:get_many", "merge"])
     if ctx.lean.build_ok:
         for (case, real, pfx), o in zip(metas, ctx.driver.batch(lines)):
             model = {}
